@@ -9,6 +9,33 @@ NEG = ("TooSoon", "ThrottledByPolicy", "DeniedByPolicy")
 SENDER = "futures::channel::oneshot::Sender<state_machine::StartUpdateCheckResponse>"
 
 
+def _local_async_work(W, t):
+    """The polled future was made by one of the crate's own `async fn`s that is not a timer maker (e.g. the update check,
+    created first and handed to the loop that polls it).  Only the call that *makes* the future counts, not its arguments."""
+    x = t
+    for _ in range(12):
+        while x[0] in ("ref", "deref"):
+            x = x[1]
+        if x[0] == "field" or x[0] == "downcast":
+            x = x[1]
+            continue
+        if x[0] == "phi":
+            return any(_local_async_work(W, a) for a in x[1])
+        if x[0] != "call" or not x[2]:
+            break
+        last = lib.norm(x[1]).rsplit("::", 1)[-1]
+        if last in ("fuse", "poll", "new_unchecked", "into_future", "new", "as_mut", "boxed", "boxed_local", "map", "then"):
+            x = x[2][0]
+            continue
+        if "wait" in last:
+            return False
+        for b in W.by_id.values():
+            if b.get("item") == last and b.get("kind") == "fn" and (b["id"] + "::{closure#0}") in W.by_id and W.by_id[b["id"] + "::{closure#0}"].get("kind") == "coroutine":
+                return True
+        return False
+    return False
+
+
 def select_sites(sm, S):
     """[(ctx, switch node idx, {arm: {'kind','term','cap','edges'}})] for every select! in the graph."""
     out = []
@@ -26,7 +53,7 @@ def select_sites(sm, S):
                 r = terms.render(cx.bv, t, W, {})
                 if "select_next_some(" in r:
                     kind = "control"
-                elif a["coroutines"]:
+                elif a["coroutines"] or _local_async_work(W, t):
                     kind = "task"
                 elif "wait_for(" in r or "wait_until(" in r or "make_wait" in r or any(x[0] == "call" and x[1].startswith("time::Timer") for x in walk(t)):
                     kind = "timer"
@@ -111,8 +138,10 @@ def run(F, R):
             nxt = set(sm.env(S, "Policy", "update_check_allowed"))
             r_ = reach_pf(S, [b], cut_nodes=list(nxt))
             R.check("C11-R2", "no-throttled-after-allow", not (set(thr) & r_), "an allowed check never answers Throttled", "Throttled reachable after a positive decision", S.nodes[a].loc())
-    waiting = [(cx, sn, info) for (cx, sn, info) in sels if not any(a["kind"] == "task" for a in info.values()) and cx is S.root]
-    beside = [(cx, sn, info) for (cx, sn, info) in sels if any(a["kind"] == "task" for a in info.values()) or cx is not S.root]
+    # an arm that polls a future which is neither the control channel nor a timer is a piece of work running beside the
+    # channel: the spliced check itself, or an opaque future handed to a helper (`complete_while_handling_requests(fut, ..)`)
+    waiting = [(cx, sn, info) for (cx, sn, info) in sels if not any(a["kind"] in ("task", "other") for a in info.values()) and cx is S.root]
+    beside = [(cx, sn, info) for (cx, sn, info) in sels if any(a["kind"] in ("task", "other") for a in info.values()) or cx is not S.root]
     wait_ctrl = [e for (cx, sn, info) in waiting for a in info.values() if a["kind"] == "control" for e in a["edges"]]
     beside_ctrl = [e for (cx, sn, info) in beside for a in info.values() if a["kind"] == "control" for e in a["edges"]]
     if R.floor("C11-R2", "waiting select / busy selects", min(len(wait_ctrl), len(beside_ctrl)), 1):
